@@ -219,6 +219,34 @@ def chunks(it, n):
         yield c
 
 
+def source_drift(pid):
+    """Files of this property's anchored source (anchors.json: closure of the property's anchor files under the
+    repository's imports) whose parsed form differs from the fingerprint recorded when the model was last tied to the
+    code.  A changed file is never a violation by itself; main_check explores further inputs when the list is not empty
+    (a change that is rare to trigger gets several times the quick budget).  None = table absent / other Python."""
+    p = VERIF / "anchors.json"
+    if not p.exists():
+        return None
+    t = json.loads(p.read_text())
+    if t.get("python") != "%d.%d" % sys.version_info[:2]:
+        return None
+    sys.path.insert(0, str(VERIF / "tools"))
+    import gen_anchors
+    base = re.match(r"^(C\d\d)", pid)
+    files = t["properties"].get(base.group(1) if base else pid)
+    if files is None:
+        files = sorted(t["files"])
+    out = []
+    for f in files:
+        if gen_anchors.fingerprint(str(REPO / f)) != t["files"].get(f):
+            out.append(f)
+    # new modules under the package count as a change of every property
+    for f in gen_anchors.py_files(str(REPO)):
+        if f not in t["files"]:
+            out.append(f)
+    return sorted(set(out))
+
+
 class Run:
     def __init__(self, mod, tier, seed):
         self.mod, self.pid, self.tier, self.seed = mod, mod.PID, tier, seed
@@ -469,6 +497,18 @@ def main_check(mod, argv):
         stream = sc(seed, run.disagreements) if sc else mod.gen_cases("thorough", seed + 7919)
         run.explore(stream, label="search", budget_s=float(os.environ.get("VERIF_SEARCH_S", "120")),
                     stop_on_violation=True)
+    drift = source_drift(mod.PID)
+    run.extra["source_drift"] = {"changed_files": drift, "extra_rounds": 0}
+    if drift and a.tier == "quick" and not run.unexplained() and not run.crashes:
+        # the anchored source differs from what the model was tied to: keep exploring with fresh seeds of the quick
+        # generator (oracle AND correspondence) until something turns up or the budget is used
+        t_end = time.time() + float(os.environ.get("VERIF_DRIFT_S", "240"))
+        k = 0
+        while time.time() < t_end and not run.unexplained():
+            k += 1
+            run.explore(mod.gen_cases("quick", seed + 104729 * k), label="drift",
+                        budget_s=max(1.0, t_end - time.time()), stop_on_violation=True)
+        run.extra["source_drift"]["extra_rounds"] = k
     return run.finish(proof)
 
 
